@@ -1,5 +1,28 @@
-from mulib import mu_check
+"""C13: releasing or waking never touches memory its owner may already have reclaimed.
+L1 (Mu.tla): reference-count pattern with NoTouchAfterFree + arena poisoning; cv wakers vs nsync_wait_n records.
+L2 (Counter.tla, Note.tla): the counter reaching zero / a note being notified against waits that a deadline can end at any
+moment: the on-stack record of a wait that has returned is marked dead and every hooked access to it is an O-mem failure."""
+from mulib import *
+import l2lib, notelib, c10
+
+
+def l2_part(run, exe_unused, results, env):
+    exe2 = build("h_l2")
+    A = c10.A; W = c10.W
+    ccfgs = [("c13_c2w", dict(progs=[[W(1)], [W(1)], [A(-1)]], init={"V0": 1}, V0=1, MaxNow=1)),
+             ("c13_cw", dict(progs=[[W(1), W(1)], [A(-1)]], init={"V0": 1}, V0=1, MaxNow=1))]
+    l2lib.run_family(run, exe2, "Counter", "C13", ccfgs, lambda c: dict(V0=c.get("V0", 0), MaxNow=c.get("MaxNow", 0)), set(), {"O-mem"})
+    N = notelib
+    ncfgs = [("c13_nw", dict(tree=N.T((1, 0, N.NONE)), NN=1, MaxNow=1, progs=[[N.WAIT(1, 1), N.POLL(1)], [N.NOTIFY(1)]])),
+             ("c13_n2w", dict(tree=N.CHAIN2, NN=2, MaxNow=1, progs=[[N.WAIT(2, 1)], [N.WAIT(2, 1)], [N.NOTIFY(1)]]))]
+    ncf = [(n, dict(N.note_conf(c), _c=c)) for n, c in ncfgs]
+    l2lib.run_family(run, exe2, "Note", "C13", ncf, lambda conf: N.consts_of(conf["_c"]), set(), {"O-mem"})
+    exer = build("h_l2r")
+    l2lib.random_runs(run, exer, "Counter", ccfgs, 2000 if run.tier == "quick" else 50000, "C13", {"O-mem"})
+    l2lib.random_runs(run, exer, "Note", ncf, 2000 if run.tier == "quick" else 50000, "C13", {"O-mem"})
 
 
 def main(tier, replay=None):
-    return mu_check("C13", tier, replay)
+    return mu_check("C13", tier, replay, post=l2_part,
+                    extra_rule="; L2 part: timed nsync_counter_wait / nsync_note_wait calls against the zeroing add / the notify, with the deadline able to expire at every point; "
+                               "the record of a returned wait is tracked as dead memory")
